@@ -351,7 +351,7 @@ def run_repo_tests_as_traces(pid, tier, t0):
 TRACE_CFG = {
     "ConcTrace": 'SPECIFICATION TSpec\nCONSTANTS\n  Thread <- T8\n  CounterImpl = "fetch_add"\nCONSTRAINT Track\nINVARIANT TraceSingleUse\nPOSTCONDITION Accepted\nCHECK_DEADLOCK FALSE\n',
     "ChainTrace": 'SPECIFICATION TSpec\nCONSTANTS\n  Thread <- T8\n  PushImpl = "try_insert"\n  MaxCells = 16\nCONSTRAINT Track\nINVARIANTS RefsOwn NothingLost DistinctCells\nPOSTCONDITION Accepted\nCHECK_DEADLOCK FALSE\n',
-    "MockTrace": 'SPECIFICATION TSpec\nCONSTANTS\n  Method = {"r0", "r1", "r2", "d0", "d1", "t0", "b0"}\n  Arg = {0, 1, 2, 3}\n  HasDefault <- tHasDefault\n  HasUnmock <- tHasUnmock\n  PartialByDef <- tPartialByDef\n  RetOwned <- tRetOwned\n  Required <- tRequired\n  HasMutexApi = TRUE\n  HasStd = TRUE\n  MaxCalls = 100000\nCONSTRAINT Track\nINVARIANTS FirstMatchOnly CountIsSelections KthResponse SingleDelivery OrderedPrefix SlotsOnlyByOrdered FallbackTable NoFabrication ErrorsRemembered VerdictIff\nPOSTCONDITION Accepted\nCHECK_DEADLOCK FALSE\n',
+    "MockTrace": 'SPECIFICATION TSpec\nCONSTANTS\n  Method = {"r0", "r1", "r2", "d0", "d1", "t0", "b0"}\n  Arg = {0, 1, 2, 3}\n  HasDefault <- tHasDefault\n  HasUnmock <- tHasUnmock\n  PartialByDef <- tPartialByDef\n  RetOwned <- tRetOwned\n  Required <- tRequired\n  HasMutexApi = TRUE\n  HasStd = TRUE\n  PoisonArg = 9\n  MaxCalls = 100000\nCONSTRAINT Track\nINVARIANTS FirstMatchOnly CountIsSelections KthResponse SingleDelivery OrderedPrefix SlotsOnlyByOrdered FallbackTable NoFabrication ErrorsRemembered VerdictIff\nPOSTCONDITION Accepted\nCHECK_DEADLOCK FALSE\n',
 }
 
 
@@ -924,6 +924,7 @@ COMMON_ASSUME = [
 ]
 
 RULES = {
+    "C11": "configurations of ordered / unordered / single-use patterns with exact expectations x histories in which matchers panic (an argument value on which every matcher panics) and answers panic, all caught; the final verification must reflect exactly the calls that matched",
     "C01": "TLC enumerates every configuration (<= MaxLeaves leaves from LeafFam: every predicate subset of Arg, exhausted/over-matched chains, stub and single-clause forms, both strict and partial) x every call history up to MaxCalls; each complete behaviour is replayed on the real mock; non-trivial = contains at least one call",
     "C02": "every well-typed quantifier chain of the family (segments x response kinds x once/n_times/at_least/open) x forms x histories of matching and non-matching calls up to beyond the chain's end; replayed on original and routed over clones",
     "C03": "clause sets with exact / at-least / trailing-then expectations x histories bringing counts below, at and above every bound; final verification through drop, verify() and report() in rotation",
@@ -939,6 +940,7 @@ LIFE_ASSUME = [
     "a double panic is observed as death of the harness process; the aborted behaviour is identified through a progress file",
 ]
 LIFE_RULES = {
+    "C11": "configurations of ordered / unordered / single-use patterns with exact expectations x histories in which matchers panic (an argument value on which every matcher panics) and answers panic, all caught; the final verification must reflect exactly the calls that matched",
     "C09": "all sequences of lifecycle operations up to MaxSteps over original + clones + helper clones + instances lent via make_ref, on two threads: clone, delegate, lend, move, hit, err, drop, verify(), report(), no_verify_in_drop(); every complete sequence is executed on the real library and each operation's outcome compared",
     "C11": "all sequences up to MaxSteps that include panics of six origins (user code, mock-induced error, real function, default body, matcher, return-value Clone) on either thread while an instance (original or clone; plain, Box, Rc, Arc) is dropped by the unwinding or not; live clones, foreign threads, unmet expectations included; an abort of the harness process is the violation",
     "C13": "all sequences up to MaxSteps of make_ref epochs (1-2 values of three types each, all earlier references re-read after every push), make_mut, lending of clones, delegation, drop/verify; destroyed values compared with drop counters after every operation",
@@ -951,6 +953,7 @@ CONC_ASSUME = [
     "free-running stress is one-sided: an unexplainable execution is real, absence proves nothing",
 ]
 CONC_RULES = {
+    "C11": "configurations of ordered / unordered / single-use patterns with exact expectations x histories in which matchers panic (an argument value on which every matcher panics) and answers panic, all caught; the final verification must reflect exactly the calls that matched",
     "C10": "(a) TLC: every interleaving of the split calls of fixed thread programs satisfies DistinctPositions / ResponsesArePositions / VerdictIsSequential (and a split counter violates them); (b) the real library under a baton scheduler: ALL schedules at the real yield points of each small program (depth-first, stateless), then seeded random schedules of larger programs, then free-running threads; every execution's begin/end events and verify() verdict must be accepted by ConcTrace.tla",
 }
 
@@ -999,7 +1002,7 @@ def run_property(pid, tier, t0):
     if pid == "C19":
         return composite(pid, tier, t0, [("call / argument / pattern rendering per error kind (Shapes.tla Render)", lambda: run_render(pid, tier, t0)),
                                          ("mismatch positions of guard-free single-alternative patterns (Matching.tla MismatchPositions)", lambda: run_matching(pid, tier, t0, "C19"))])
-    if pid in mockplans.PLANS:
+    if pid in mockplans.PLANS and pid != "C11":
         return mock()
     if pid in CONC_PROGS:
         return conc()
@@ -1007,6 +1010,8 @@ def run_property(pid, tier, t0):
         extra = None
         if pid == "C11":
             extra = lambda: {"sensitivity": life_sensitivity()}
+            return composite(pid, tier, t0, [("crash points x instance topologies (Lifecycle.tla replay, process abort = violation)", lambda: life(None, extra)),
+                                             ("caught user panics in matchers and answers, then verification (Mock.tla replay)", mock)])
         return life(None, extra)
     raise ToolError("no engine for property %s" % pid)
 
